@@ -491,20 +491,25 @@ def check_keygen(ctx, P, rule="E5.keygen"):
             sp = B.peel(salt)
             ok = sp.op == "agg" and sp.a[0][1:3] == ("Option", "Some") and B.peel(sp.a[1][0]).op == "param" and B.peel(sp.a[1][0]).a[1] == "dst" and B.peel(ikm_t).op == "param" and B.peel(ikm_t).a[1] == "m"
         ctx.ob(rule + ".route", g.key, ok, "hash_to_scalar(m, dst) = scalar_from_hkdf_bytes(Some(dst), m): %s" % show(r, 6), where=where(g))
-    # key derivation entry points put KEYGEN_SALT in the salt position
+    # key derivation entry points put KEYGEN_SALT in the salt position (looking through delegation between them)
     n = 0
-    for fn in P.fns.values():
+    for fk in ("SecretKey<C>::from_hash", "SecretKey<C>::random", "BlsSignature<T>::secret_key_from_hash", "BlsSignature<T>::random_secret_key"):
+        fn = ctx.need_fn(rule + ".keysalt", fk, P)
+        if fn is None:
+            continue
         ev2 = evaluate(fn)
-        for bb, s in ev2.sites.items():
-            if s.callee[0] == "HashToScalar::hash_to_scalar" and len(s.args) == 2:
-                tg = B.peel(s.args[1])
-                if fn.name in ("from_hash", "random", "secret_key_from_hash", "random_secret_key") and (fn.impl_self_adt in ("SecretKey", "BlsSignature")):
-                    n += 1
-                    ctx.saw(fn)
-                    val = tg.a[2] if tg.op == "named" else None
-                    got = bytes.fromhex(val.a[1]).decode("latin-1") if val is not None and val.op == "const" and val.a[0] == "bytes" else None
-                    ctx.ob(rule + ".keysalt", fn.key, tg.op == "named" and got == pinned["salts"]["keygen"], "key derivation salt = %r (want %r)" % (got, pinned["salts"]["keygen"]), where=where(fn, bb))
-    ctx.floor(rule + ".keysalt", "key-derivation call sites", n, 4)
+        ret = strip_sites(inline(P, ev2.ret, 3, only=lambda g: not g.key.endswith("::hash_to_scalar")))
+        hs = [t for t in subterms(ret) if t.op == "call" and B.cname(t) == "HashToScalar::hash_to_scalar" and len(t.a[1]) == 2]
+        got = None
+        ok = len(hs) == 1
+        if ok:
+            tg = B.peel(hs[0].a[1][1])
+            val = tg.a[2] if tg.op == "named" else None
+            got = bytes.fromhex(val.a[1]).decode("latin-1") if val is not None and val.op == "const" and val.a[0] == "bytes" else None
+            ok = tg.op == "named" and got == pinned["salts"]["keygen"]
+            n += 1
+        ctx.ob(rule + ".keysalt", fk, ok, "key derivation = one hash_to_scalar(.., salt) with salt = %r (want %r)" % (got, pinned["salts"]["keygen"]), where=where(fn))
+    ctx.floor(rule + ".keysalt", "key-derivation entry points", n, 4)
 
 
 def check_seeded_derivation(ctx, P, rule="E5.seeded"):
@@ -518,7 +523,7 @@ def check_seeded_derivation(ctx, P, rule="E5.seeded"):
         if f is None:
             continue
         ev = evaluate(f)
-        ret = strip_sites(ev.ret)
+        ret = strip_sites(inline(P, ev.ret, 3, only=lambda g: not g.key.endswith("::hash_to_scalar")))
         hs = [t for t in subterms(ret) if t.op == "call" and B.cname(t) == "HashToScalar::hash_to_scalar"]
         ok = len(hs) == 1
         detail = show(ret, 5)
